@@ -24,6 +24,8 @@ pub struct RowModel<T: Sc> {
     pub fail_deriv: Option<(usize, T)>,
     /// single entries (k, row, column, value) of the k-th partial-derivative matrix to overwrite
     pub dentries: Vec<(usize, usize, usize, T)>,
+    /// the basis evaluation fails whenever the first model parameter exceeds the threshold
+    pub fail_eval: Option<T>,
 }
 impl<T: Sc> RowModel<T> {
     fn fix_eval(&self, m: DMatrix<T>) -> DMatrix<T> {
@@ -70,6 +72,11 @@ impl<T: Sc> SeparableNonlinearModel for RowModel<T> {
         self.inner.params()
     }
     fn eval(&self) -> Result<OMatrix<T, Dyn, Dyn>, HErr> {
+        if let Some(thr) = self.fail_eval {
+            if self.inner.params()[0] > thr {
+                return Err(HErr("evaluation unavailable".to_string()));
+            }
+        }
         self.inner.eval().map(|m| self.fix_eval(m))
     }
     fn eval_partial_deriv(&self, k: usize) -> Result<OMatrix<T, Dyn, Dyn>, HErr> {
@@ -297,6 +304,7 @@ fn one_wtwin<T: Sc>(out: &mut Out, rng: &mut Rng, thorough: bool, i: usize) {
             entries: vec![],
             fail_deriv: None,
             dentries: vec![],
+            fail_eval: None,
         }));
         let mut ys = c.y.clone();
         for j in 0..ys.ncols() {
@@ -324,6 +332,7 @@ fn one_wtwin<T: Sc>(out: &mut Out, rng: &mut Rng, thorough: bool, i: usize) {
             entries: vec![],
             fail_deriv: None,
             dentries: vec![],
+            fail_eval: None,
         }));
         let mut yz = c.y.clone();
         for r in zeros.iter() {
@@ -373,6 +382,17 @@ fn one_mrhs<T: Sc>(out: &mut Out, rng: &mut Rng, thorough: bool, i: usize) {
         2 if c.y.ncols() >= 3 => {
             let c2 = c.y.column(0) * T::of(2.0) - c.y.column(1);
             c.y.set_column(2, &c2);
+        }
+        3 if c.y.ncols() >= 2 => {
+            // an all-zero observation column (first, last or in the middle): its coefficients, residual
+            // block and Jacobian blocks are exactly zero and must stay in ITS slots
+            let j = match (i / 5) % 3 {
+                0 => 0,
+                1 => c.y.ncols() - 1,
+                _ => c.y.ncols() / 2,
+            };
+            let z = DVector::from_element(c.y.nrows(), T::of(0.0));
+            c.y.set_column(j, &z);
         }
         _ => {}
     }
@@ -439,18 +459,35 @@ fn one_par<T: Sc>(out: &mut Out, rng: &mut Rng, thorough: bool, i: usize, thread
     } else {
         None
     };
+    // one case in eight: the basis EVALUATION fails at some of the parameter vectors (a function of
+    // the parameters); one in eight: all basis values are finite but next to the overflow threshold
+    // (their sum is not finite) or next to the underflow threshold
+    let thr_mid = {
+        let mut a0: Vec<f64> = c.history.iter().map(|a| a[0].f()).collect();
+        a0.push(c.init[0].f());
+        a0.sort_by(|x, y| x.partial_cmp(y).unwrap());
+        T::of(a0[a0.len() / 2] + 1e-3)
+    };
+    let fail_eval: Option<T> = if i % 8 == 3 { Some(thr_mid) } else { None };
+    let huge: Option<f64> = if i % 8 == 7 {
+        Some(if T::WIDTH == 32 { *rng.pick(&[1e37, 1e-36]) } else { *rng.pick(&[1e307, 1e-300, 1e306]) })
+    } else {
+        None
+    };
+    let n_rows = c.recipe.n();
     let mk = |c: &StateCase<T>| -> WM<T> {
-        match fail {
-            None => wrap_any(any_model(&c.recipe, &c.init, c.built)),
-            Some(fd) => wrap_any(AnyModel::Dyn(Box::new(RowModel {
-                inner: any_model(&c.recipe, &c.init, c.built),
-                scale: None,
-                overwrite: vec![],
-                entries: vec![],
-                fail_deriv: Some(fd),
-                dentries: vec![],
-            }))),
+        if fail.is_none() && fail_eval.is_none() && huge.is_none() {
+            return wrap_any(any_model(&c.recipe, &c.init, c.built));
         }
+        wrap_any(AnyModel::Dyn(Box::new(RowModel {
+            inner: any_model(&c.recipe, &c.init, c.built),
+            scale: huge.map(|h| vec![T::of(h); n_rows]),
+            overwrite: vec![],
+            entries: vec![],
+            fail_deriv: fail,
+            dentries: vec![],
+            fail_eval,
+        })))
     };
     let primary = match dynp(fl, mk(&c), &c.y, w.as_ref(), c.eps) {
         Some(p) => p,
@@ -466,7 +503,15 @@ fn one_par<T: Sc>(out: &mut Out, rng: &mut Rng, thorough: bool, i: usize, thread
     }
     emit_twin_case_f(
         out,
-        &format!("twins=twinSeq,twinInto threads={} failderiv={}", threads, if fail.is_some() { 1 } else { 0 }),
+        &format!(
+            "twins=twinSeq,twinInto threads={} failderiv={} faileval={}{}",
+            threads,
+            if fail.is_some() { 1 } else { 0 },
+            if fail_eval.is_some() { 1 } else { 0 },
+            // the harness tables do not describe a model that fails to evaluate or is scaled to the edge of
+            // the floating-point range: such cases are judged by the twins alone
+            if fail_eval.is_some() || huge.is_some() { " only=twins" } else { "" }
+        ),
         &c,
         primary,
         twins,
